@@ -411,7 +411,7 @@ class World:
         return "%s%06d" % (prefix, self._read_counter)
 
     def make_read(self, chrom, exons, name=None, polya=0, polyt=0, indels=0, flag=0, mapq=60, tags=None,
-                  truth=None, file_idx=0, mismatches=0):
+                  truth=None, file_idx=0, mismatches=0, junction_errors=False):
         """exons: aligned exons (1-based closed). polya: soft-clipped A-tail length at the right,
         polyt: soft-clipped T-head at the left.  indels: number of small exonic indels (>=15 bp from junctions)."""
         rng = self.rng
@@ -437,6 +437,17 @@ class World:
                     seq.append(seg[:p] + seg[p + k:])
             else:
                 cigar.append((0, L))
+                if junction_errors and L > 12:
+                    # sequence errors right next to the splice junctions
+                    sl = list(seg)
+                    flip = {"A": "C", "C": "A", "G": "C", "T": "G"}
+                    if i > 0:
+                        for q in (1, 3):
+                            sl[q] = flip[sl[q]]
+                    if i < len(exons) - 1:
+                        for q in (L - 2, L - 4):
+                            sl[q] = flip[sl[q]]
+                    seg = "".join(sl)
                 if mismatches and L > 40:
                     sl = list(seg)
                     for _ in range(mismatches):
